@@ -98,6 +98,7 @@ type c19Ctx struct {
 	nSample int
 	nLong   int
 	nHist   int
+	nAfter  int
 }
 
 func (c *c19Ctx) fail(class, what, in, observed, required string) {
@@ -188,6 +189,10 @@ func (c *c19Ctx) cases(in []byte, o smsObs, label, specTerm string) {
 	switch {
 	case o.Class == 0 && o.ValidType && o.EncClass == 0:
 		r.Case(desc, fmt.Sprintf("sms_dec_is %s \"%s\" %s && sms_enc_is %s %s", coqHex(in), o.Name, o.Term, coqHex(in), coqHex(o.Out)))
+		if c.nAfter++; c.nAfter%8 == 0 && o.TermAfter != "" {
+			// the structure AFTER Marshal, against the model of what Marshal writes into its argument
+			r.Case("after-marshal "+desc, fmt.Sprintf("sms_arg_after_is %s \"%s\" %s", coqHex(in), o.Name, o.TermAfter))
+		}
 	default:
 		r.Case(desc, fmt.Sprintf("sms_class %s =? %d", coqHex(in), o.Class))
 	}
@@ -523,6 +528,7 @@ func c19Enh(r *Rng, f int) specEnh {
 func corrC19(r *Run) {
 	r.Import("Model.TpduRun")
 	r.Import("Spec.Gsm0340")
+	r.Import("Proofs.TpduMarshalEffect")
 	r.Import("Model.TpduReaderRun")
 	r.Rule = "TPDUs laid out by the Go transliteration of Spec/Gsm0340.v over the quantifier's classes: digit counts 1..20 (odd/even, leading zeros) " +
 		"for OA/DA/SC, alphanumeric 1..11, all 64 first octets of each type, all 256 relative VPs, enhanced (4 formats) and absolute VPs, " +
